@@ -410,7 +410,88 @@ def rule_R7(ctx, tabs):
               "an error is counted for an *optional* signature header", ctx.loc(b, bad[0]) if bad else None)
 
 
+WIDTH = {"u8": 8, "u16": 16, "u32": 32, "u64": 64, "usize": 64, "u128": 128, "i8": 8, "i16": 16, "i32": 32, "i64": 64, "isize": 64, "i128": 128}
+
+
+def rule_R9(ctx):
+    """R9: header-list comparison charges a signature header only when it is not optional (`?name`): every error increment inside
+    a loop that walks signature entries is guarded by `!optional`; headers left over on the observed side are always charged"""
+    P = ctx.program
+    b = P.method1("HttpDistance", "distance_header")
+    S = T.Slicer(b, P)
+    var = [i for i, l in enumerate(b.locals) if l.get("name") == "errors"]
+    if len(var) != 1:
+        ctx.cannot("R9", "distance_header:errors", "local `errors` not found", ctx.loc(b))
+        return
+    var = var[0]
+    idx_names = {}
+    for i, l in enumerate(b.locals):
+        if l.get("name") in ("obs_idx", "sig_idx"):
+            idx_names[i] = l["name"]
+    loops = C.loops(b)
+    counts = {"walk": 0, "observed-rest": 0, "signature-rest": 0}
+    for (db_, dj_, full) in S.defs().get(var, []):
+        term = T.strip(S.def_term(var, db_, dj_, 0))
+        if not (term[0] == "call" and term[1].endswith("saturating_add")):
+            continue
+        mine = [h for h, blks in loops.items() if db_ in blks]
+        if not mine:
+            continue
+        h = min(mine, key=lambda x: len(loops[x]))
+        blks = loops[h]
+        tested = set()
+        for x in blks:
+            t = b.blocks[x]["t"]
+            if t["k"] == "switch" and any(sx not in blks for sx in b.succs(x)):
+                for st in b.blocks[x]["s"]:
+                    if st["k"] == "assign" and st["r"]["k"] == "binop" and st["r"]["op"] in ("Lt", "Le", "Gt", "Ge"):
+                        for o in (st["r"]["a"], st["r"]["b"]):
+                            pl = o.get("c") or o.get("m")
+                            if pl is not None:
+                                r = TB._root_local(b, pl["l"])
+                                if r in idx_names:
+                                    tested.add(idx_names[r])
+        kind = "walk" if tested == {"obs_idx", "sig_idx"} else "observed-rest" if tested == {"obs_idx"} else "signature-rest" if tested == {"sig_idx"} else "?"
+        conds = Q.canon_conds(P, T.dom_conds(b, S, db_))
+        opt_false = any(c[0] == "bool" and c[2] is False and any(x[0] == "field" and x[2] == "optional" for x in T.walk(c[1])) and
+                        any(x[0] == "param" and x[2] == "signature" for x in T.walk(c[1])) for c in conds)
+        if kind in counts:
+            counts[kind] += 1
+        inst = "distance_header:%s:charge@%d" % (kind, counts.get(kind, 0))
+        if kind in ("walk", "signature-rest"):
+            ctx.check(opt_false, "R9", inst, "a signature header is charged only when it is not optional",
+                      "in the %s loop an error is counted for a signature header without testing its `optional` flag: a signature ending in (or containing) `?Header` "
+                      "entries is penalised when the header is absent, so conforming traffic scores worse than the exact match it is" % kind, ctx.loc(b, db_))
+        elif kind == "observed-rest":
+            ctx.check(True, "R9", inst, "headers left over on the observed side are charged", "", ctx.loc(b, db_))
+        else:
+            ctx.cannot("R9", inst, "error increment inside a loop whose index tests are not recognised", ctx.loc(b, db_))
+    ctx.check(counts["walk"] >= 2 and counts["observed-rest"] >= 1 and counts["signature-rest"] >= 1, "R9", "distance_header:charge-sites",
+              "error increments: %s" % counts, "expected error increments in the joint walk (2), the observed remainder (1) and the signature remainder (1); found %s" % counts, ctx.loc(b))
+
+
+def rule_R8(ctx):
+    """R8: quantities compared by the distance functions are never truncated: every integer conversion in the matching code
+    widens (a narrowed ratio / length aliases distinct values onto one, turning a mismatch into an exact hit)"""
+    P = ctx.program
+    n = 0
+    for b in P.bodies.values():
+        if b.crate != "huginn_net_db" or not any(k in b.path for k in ("tcp::", "http::", "observable_", "db::")):
+            continue
+        for i, j, s in b.iter_stmts():
+            if s["k"] == "assign" and s["r"]["k"] == "cast" and s["r"].get("ck") == "IntToInt":
+                fr, to = s["r"].get("from"), s["r"]["ty"]
+                if fr in WIDTH and to in WIDTH:
+                    n += 1
+                    ctx.check(WIDTH[to] >= WIDTH[fr], "R8", "%s:cast:%s->%s" % (T.short(b.path), fr, to), "widening conversion %s -> %s" % (fr, to),
+                              "%s truncates a %s to %s before comparing it: values that differ by a multiple of 2^%d compare equal, so a signature is accepted as an exact "
+                              "instance (distance 0) for observations it does not describe" % (T.short(b.path), fr, to, WIDTH[to]), ctx.loc(b, i))
+    ctx.floor("R8", "integer conversions in the matching code", n, 1)
+
+
 def run(ctx):
+    rule_R8(ctx)
+    rule_R9(ctx)
     tabs = _score_tables(ctx)
     rule_R1(ctx)
     rule_components(ctx, tabs)
